@@ -313,7 +313,7 @@ func main() {
 	fns := lz.funcs()
 	var sb strings.Builder
 	w := func(format string, a ...interface{}) { fmt.Fprintf(&sb, format+"\n", a...) }
-	w("-- GENERATED by tools/extract from %s — do not edit; regenerated on every check", *repo)
+	w("-- GENERATED by tools/extract from the repository source — do not edit; regenerated on every check")
 	w("namespace LZ.Facts")
 	w("")
 	w("/-! ### literal constants of the modelled functions, in source order -/")
